@@ -315,6 +315,35 @@ def shard_files(desc, rec):
             for name, n2, ver, want in variants:
                 open(pb, "wb").write(rc.encode_container(n2, blocks, ver, hdates=(5, 6, 7), free_comment="other"))
                 cmp(want, name)
+        # a table with an unused slot between live blocks: blocks behind the hole count too
+        if len(specs) >= 2 and i % 2 == 0:
+            def hole_file(path, ss, hole_at):
+                blocks = [{"type": rc.TYPE_CODES[s_["t"]], "format": s_["format"], "payload": rc.encode_block(s_),
+                           "cdate": 10 ** 9, "mdate": 10 ** 9, "adate": 10 ** 9, "comment": "eq"} for s_ in ss]
+                extra = {"type": 13, "format": 0, "payload": b"x" * 10, "cdate": 1, "mdate": 1, "adate": 1, "comment": ""}
+                blocks.insert(hole_at, extra)
+                data = bytearray(rc.encode_container(len(blocks) + 2, blocks, 1))
+                o = rc.HEADER + rc.ENTRY * hole_at
+                e, _ = rc.decode_entry(bytes(data[o:o + rc.ENTRY]))
+                data[o:o + rc.ENTRY] = rc.encode_entry(dict(e, type=0, format=0, size=0, comment=""))
+                open(path, "wb").write(bytes(data))
+            hole_at = rng.randint(0, len(specs) - 1)
+            hole_file(pa, specs, hole_at)
+            hole_file(pb, specs, hole_at)
+            cmp(True, "same-blocks-around-a-hole")
+            j = rng.randrange(len(specs))
+            muts = [(n_, m_) for n_, m_ in mutations(rng, specs[j])]
+            ok_m = None
+            for n_, m_ in muts:
+                try:
+                    rc.encode_block(m_)
+                    ok_m = m_
+                    break
+                except Exception:
+                    continue
+            if ok_m is not None:
+                hole_file(pb, specs[:j] + [ok_m] + specs[j + 1:], hole_at)
+                cmp(False, "one-block-mutated-behind-or-before-a-hole")
         for p in (pa, pb):
             if os.path.exists(p):
                 os.unlink(p)
